@@ -180,7 +180,7 @@ def semantic_validity(C, R):
                     # variable: its type is what infer_variable_type gives (an Err means the filter is rejected before validation)
                     ip = A.Interp(C, intrinsics=intr)
                     try:
-                        r = A.deref(ip.call_fn(inf, ["prop", lt, A.Enum(IR + "Operation", op, [A.Tuple([]), A.Sym("arg")])]))
+                        r = A.deref(ip.call_by_type(inf, [("str", "prop"), ("Type", lt), ("Operation", A.Enum(IR + "Operation", op, [A.Tuple([]), A.Sym("arg")]))]))
                         if r.variant == "Ok":
                             vref = A.Struct(IR + "VariableRef", {"variable_name": "v", "variable_type": A.deref(r.fields[0])})
                             rights.append(("variable", A.Enum(IR + "Argument", "Variable", [vref])))
@@ -195,7 +195,7 @@ def semantic_validity(C, R):
                     ip = A.Interp(C, intrinsics=intr)
                     n += 1
                     try:
-                        ip.call_fn(f, [operation, tag_name])
+                        ip.call_by_type(f, [("Operation", operation), ("Option", tag_name)])
                     except A.PanicReached as e:
                         panics.setdefault((op, rname.split(":")[0]), []).append({"left": repr(lt), "right": rname, "panic": e.what})
     except A.Unsupported as e:
